@@ -12,12 +12,19 @@ for name, fired in sorted(res.items()):
         for k in keys:
             k = k.replace('key:', '').strip()
             if 'check-error' in k or 'floor is' in k:
-                continue
+                # fails closed (anchor gone / table shape lost): expect the same rule to fail closed again
+                k = k.split('|check-error', 1)[0] + '|check-error'
             # drop the rule prefix's volatile parts? keep the whole key: it has no line numbers
             ks.append(k)
         if ks:
             e[pid] = ks[:2]
     if e:
         out[name] = e
+# expectations added by hand after a rule was strengthened (until the next full seedtest run confirms them)
+mp = os.path.join(V, 'mutants', 'EXPECT.manual.json')
+if os.path.exists(mp):
+    for name, e in json.load(open(mp)).items():
+        for pid, ks in e.items():
+            out.setdefault(name, {}).setdefault(pid, ks)
 json.dump(out, open(os.path.join(V, 'mutants', 'EXPECT.json'), 'w'), indent=1, sort_keys=True)
 print(len(out), 'changes with expectations')
